@@ -354,11 +354,17 @@ class Problem:
                                           entropy=self.entropy, levy_area_approximation=self.c["levy"])
         return RecordingBrownian(inner, max_calls=max_calls)
 
-    def sdeint(self, ts_f, dt, bm, y0=None, options_obj=None, **kw):
+    def sdeint(self, ts_f, dt, bm, y0=None, options_obj=None, via_adjoint=False, **kw):
         c = self.c
         ts = list(ts_f) if c["ts_kind"] == "list" else torch.tensor(ts_f, dtype=self.dtype)
         # options_obj: ONE dict object the caller keeps and passes to every call (instead of a fresh dict per call)
         opts = options_obj if options_obj is not None else (dict(c["options"]) if c["options"] else None)
+        if via_adjoint:
+            # the forward pass of sdeint_adjoint is the same loop with the same forward arguments; the backward-only
+            # options are set to something else on purpose (they must not reach the forward solve)
+            return torchsde.sdeint_adjoint(self.sde, self.y0 if y0 is None else y0, ts, bm=bm, method=c["method"], dt=dt,
+                                           options=opts, adjoint_params=(), adjoint_adaptive=True, adjoint_rtol=0.3,
+                                           adjoint_atol=0.7, adjoint_options={}, **kw)
         return torchsde.sdeint(self.sde, self.y0 if y0 is None else y0, ts, bm=bm, method=c["method"], dt=dt,
                                options=opts, **kw)
 
@@ -1278,9 +1284,11 @@ def c14_natural(job):
     # (in the dtype of the problem, so that the time arithmetic of the loop stays in the dtype of ts)
     sc = {k: (torch.tensor(pr[k], dtype=p.dtype) if as_tensor else pr[k]) for k in ("dt", "dt_min", "rtol", "atol")}
     sc0 = {k: float(v) for k, v in sc.items()}
+    via_adjoint = (sum(map(ord, pr["name"])) // 2 + seed) % 3 == 0       # a third of the runs through sdeint_adjoint
     with LoopRecorder(bm, max_trials=limit) as rec:
         try:
-            p.sdeint(ts_f, sc["dt"], bm, adaptive=True, dt_min=sc["dt_min"], rtol=sc["rtol"], atol=sc["atol"])
+            p.sdeint(ts_f, sc["dt"], bm, adaptive=True, dt_min=sc["dt_min"], rtol=sc["rtol"], atol=sc["atol"],
+                     via_adjoint=via_adjoint)
         except WatchdogExpired:
             aborted = True
         except Exception as e:  # noqa
@@ -1297,6 +1305,7 @@ def c14_natural(job):
     stats["trace_cut"] = cut
     stats["terminated"] = not aborted
     stats["scalars_as_tensors"] = as_tensor
+    stats["through_sdeint_adjoint"] = via_adjoint
     fails = []
     if as_tensor:
         changed = {k: float(sc[k]) for k in sc if float(sc[k]) != sc0[k]}
